@@ -291,7 +291,7 @@ where
         if self.device.config.int_config.get_config0().bits() != tmp_int_config0.bits() {
             self.device.interface.write_register(int_config0)?;
         }
-        if self.device.config.int_config.get_config1().bits() != tmp_int_config0.bits() {
+        if self.device.config.int_config.get_config1().bits() != tmp_int_config1.bits() {
             self.device.interface.write_register(int_config1)?;
         }
         if wkup_int_config0.bits() != tmp_wkup_int_config0.bits() {
